@@ -307,6 +307,11 @@ func (ad *adversary) generate(T int) advPacket {
 				s := uint16(inflight) + 12000 + uint16(tp.intn(10000))
 				gaps = append(gaps, wGap{s, s + uint16(tp.intn(100))})
 			}
+			if len(gaps) > 1 && tp.intn(2) == 0 {
+				// the blocks in any order: an invalid SACK is invalid wherever its bad block stands
+				gaps[0], gaps[len(gaps)-1] = gaps[len(gaps)-1], gaps[0]
+				w.probe("impossible-block-listed-first")
+			}
 			b.chunk(wtSACK, 0, wSackValue(ackPoint, 1<<20, gaps, nil))
 			p = advPacket{raw: b.bytes(true), class: "sack-impossible-gaps", inert: true}
 		case 10, 11:
